@@ -15,8 +15,10 @@ StShapes == {[stop |-> s, arr |-> a, dep |-> d, track |-> t, lastObs |-> 30, mar
 StLists == {<<>>} \cup {<<a>> : a \in StShapes} \cup
            {<<a, b>> : a \in {x \in StShapes : x.stop = 1 /\ x.arr = None}, b \in {x \in StShapes : x.stop = 2 /\ x.dep # None /\ x.marked = None}}
 
+(* start times are not in journal order (2, 1, 4, 3 hours): a free-form journal need not be sorted *)
+StartOf(n) == 3600 * (IF n % 2 = 1 THEN n + 1 ELSE n - 1)
 TripShape(n, dir, veh, marked, sts) ==
-    [uid |-> [start |-> 3600 * n, sfx |-> n], pfx |-> n, sfx |-> n, route |-> n, dir |-> dir, start |-> 3600 * n,
+    [uid |-> [start |-> StartOf(n), sfx |-> n], pfx |-> n, sfx |-> n, route |-> n, dir |-> dir, start |-> StartOf(n),
      vehId |-> veh, assigned |-> veh # 0, sts |-> sts, lastObs |-> 50 + n, marked |-> marked,
      nUpd |-> n, nChg |-> n - 1, nRew |-> -1]
 
